@@ -19,6 +19,7 @@ const setPkg = "github.com/emirpasic/gods/v2/sets/linkedhashset"
 func checkC19(c *chk.Ctx) {
 	h := newH(c)
 	c.Decided = []string{
+		"R19i every label of a rule narrows the eligible set (the running set is not grown in place for later labels of the first rule)",
 		"R19h successive swaps of one round see each other: the selected set of a swap is computed from state the previous proposal updated",
 		"R19g the policies of the selection contexts are only copied from the namespace configuration",
 		"R19f the selection context never changes the candidate set it was handed in place (the balancer shares one set across all swaps of a round and reads it to tell deleted servers from live ones)",
@@ -40,6 +41,7 @@ func checkC19(c *chk.Ctx) {
 	ruleR19f(h)
 	rulePoliciesOnlyFromConfig(h, "R19g")
 	ruleSwapSelectedFromCurrentView(h, "R19h")
+	ruleFilterSetDoesNotGrow(h, "R19i")
 }
 
 func isSetMethod(c *ssa.CallCommon, name string) bool {
